@@ -129,3 +129,43 @@ CHECKS['C15'] = dict(stages=[
           quick=dict(cases=2000, min_nontrivial=0, time_budget=100, case_timeout=60, workers=4),
           thorough=dict(cases=40000, min_nontrivial=0, time_budget=900, case_timeout=120, workers=4), env=dict(RSV_FREE=1), tag_suffix='+free'),
 ], assumptions=_sync_assume)
+
+
+# ---- E4: several MPI ranks in one process (renamed copies of the core + in-process MPI) ---------------------------------
+from rsvlib import make_rank_copies  # noqa: E402
+
+_E4_HX = ['h_runtime.c', 'rt_oracles.c', 'gm_model.c', 'gm_model_ref.c', 'refexec.c', 'e4_api.c', 'fakempi/fakempi.c']
+_e4_assume = _rt_assume + [
+    'the MPI library is replaced by an in-process one (hx/fakempi): eager copy at send time, FIFO per (sender thread, destination), '
+    'generated delivery delays, generated service order between sender threads, generated completion delay of the non-blocking collectives',
+    'ranks are renamed copies (objcopy --redefine-syms) of the objects compiled from /repo; 1..4 ranks x 1..3 threads',
+]
+
+
+def _e4(prop, quick_cases, thorough_cases, minnt):
+    return stage('h_mpi', _E4_HX, name='h_mpi(DET, 1..4 ranks)', variant='core_mpi', postprocess=make_rank_copies,
+                 cflags=['-DRSV_E4', '-DGM_E4'], file_cflags={'refexec.c': ['-include', 'e4_refmap.h']},
+                 quick=dict(cases=quick_cases, min_nontrivial=minnt, time_budget=250, case_timeout=90),
+                 thorough=dict(cases=thorough_cases, min_nontrivial=minnt * 10, time_budget=1800, case_timeout=300),
+                 env=dict(RSV_FREE=0), tag_suffix='')
+
+
+CHECKS['C02'] = dict(stages=[_e4('C02', 5000, 100000, 200)], assumptions=_e4_assume)
+
+for _p in ('C03', 'C04', 'C06', 'C08', 'C09'):
+    CHECKS[_p]['stages'].append(_e4(_p, 2500, 50000, 50))
+    CHECKS[_p]['assumptions'] = _e4_assume
+
+
+# C11: memory safety / UB rides on every engine (all harness builds are ASan+UBSan with asserts on).  Its own check runs
+# the engines with only the crash / sanitizer / assertion oracle armed (semantic oracles of other properties are counted).
+CHECKS['C11'] = dict(stages=_rt('C11', 5000, 100000, 300) + [
+    _e4('C11', 2000, 40000, 50),
+    stage('h_alloc', ['h_alloc.c'], name='h_alloc(64KiB arenas)', quick=dict(cases=16000, min_nontrivial=100, time_budget=100),
+          thorough=dict(cases=320000, min_nontrivial=1000, time_budget=900)),
+    stage('h_numeric', ['h_numeric.c'], quick=dict(cases=200000, min_nontrivial=1000, time_budget=100),
+          thorough=dict(cases=4000000, min_nontrivial=10000, time_budget=900)),
+    stage('h_order', ['h_order.c'], quick=dict(cases=80000, min_nontrivial=1000, time_budget=100),
+          thorough=dict(cases=1600000, min_nontrivial=10000, time_budget=900)),
+], assumptions=_e4_assume + ['a sanitizer report, failed assertion or fatal signal inside the runtime on a valid model is the violation; '
+                             'LeakSanitizer is not used as an oracle'])
